@@ -633,7 +633,7 @@ func genEnumXCase(rt *rapid.T) EnumXCase {
 
 func runEnumX(t *testing.T) {
 	H.Rule("enumx", "rapid: one or two modules that export enums / const enums (auto-increment, numeric constant expressions over literals, earlier members, enums of the same file and — numeric only, followed by an explicit initialiser — enums imported from the other module by name, renamed or through a namespace import; string members, concatenations and templates over string members of the same file; quoted member names; computed members and top-level side effects in modules that declare plain enums only), an optional re-exporting module (`export { E as RE } from`, `export *`), and an entry that imports each enum directly or through the re-export by name, renamed or through a namespace import, optionally declares its own enum over the imported ones, and uses members in many expression contexts (`.m`, [\"m\"], `**`, `.toString()`, template, computed key, switch case, unary minus; reverse mapping, Object.keys and the whole object for plain enums only); × bundle format {iife, esm} × minify {off, syntax, all}. The reference is one script: every enum spelled as the object TypeScript defines (numeric members with reverse mapping, string members without), modules in ES evaluation order of the surviving imports, the uses spelled with the declared names. Oracle: V8 trace of the bundle == V8 trace of the reference (const and plain enums, inlined or not, minified or not must all give the values V8 computes); additionally a const enum whose members are constants of its own file and that is used only through member accesses must not be accessed as an object anywhere in the bundle (cross-module inlining; not checked with minified identifiers). Excluded by construction (isolatedModules rules that esbuild documents): `declare const enum` across modules, auto-increment after a member initialised from another module's enum, string members initialised from another module's enum, `**` in initialisers (C03), number-to-string conversion in template initialisers, const enums in modules with side effects. non-trivial = ≥3 events and ≥2 modules")
-	H.SetupRapid("enumx", H.N(2000, 100000))
+	H.SetupRapid("enumx", H.N(2000, 40000))
 	rapid.Check(t, func(rt *rapid.T) {
 		c := genEnumXCase(rt)
 		H.Report(rt, "enumx", filesText(c.Files)+c.Format+c.Minify, c, judgeEnumXKnown(c))
